@@ -494,7 +494,7 @@ theorem step_frame (w : World) (op : Op) (h : op.isExecute = false) :
     (step w op).1.log = w.log ∧ (step w op).2.isSent = false ∧ (step w op).1.pf = w.pf ∧
       ∀ idx, idx < w.jobs.length → (step w op).1.jobs[idx]? = w.jobs[idx]? := by
   cases op with
-  | execute idx args kw => simp [Op.isExecute] at h
+  | execute idx args kw net => simp [Op.isExecute] at h
   | newRemote via m circ cps noise =>
     simp only [step]; split <;> simp [Out.isSent]
   | convert fixed p =>
@@ -539,17 +539,17 @@ theorem step_frame (w : World) (op : Op) (h : op.isExecute = false) :
         simp [List.getElem?_append_left hidx]
     · simp [Out.isSent]
 
-theorem step_execute (w : World) (idx : Nat) (args : List PV) (kw : Dict PV) :
-    (w.jobs[idx]? = none ∧ step w (.execute idx args kw) = (w, .err .precondition)) ∨
+theorem step_execute (w : World) (idx : Nat) (args : List PV) (kw : Dict PV) (net : Net) :
+    (w.jobs[idx]? = none ∧ step w (.execute idx args kw net) = (w, .err .precondition)) ∨
     (∃ j its, w.jobs[idx]? = some (j, its) ∧ j.fresh = false ∧
-      step w (.execute idx args kw) = (w, .err .assertion)) ∨
+      step w (.execute idx args kw net) = (w, .err .assertion)) ∨
     (∃ j its err, w.jobs[idx]? = some (j, its) ∧ j.fresh = true ∧ createPayloadData j args kw = .error err ∧
-      step w (.execute idx args kw) =
+      step w (.execute idx args kw net) =
         ({ w with jobs := w.jobs.set idx ({ j with fresh := false }, its) }, .err err)) ∨
     (∃ j its pl, w.jobs[idx]? = some (j, its) ∧ j.fresh = true ∧ createPayloadData j args kw = .ok pl ∧
-      step w (.execute idx args kw) =
+      step w (.execute idx args kw net) =
         ({ w with jobs := w.jobs.set idx ({ j with fresh := false }, its),
-                  log := w.log ++ [⟨j.jobName, pl, its⟩] }, .sent ⟨j.jobName, pl, its⟩)) := by
+                  log := w.log ++ received net ⟨j.jobName, pl, its⟩ }, outcome net ⟨j.jobName, pl, its⟩)) := by
   cases hj : w.jobs[idx]? with
   | none => left; simp [step, hj]
   | some ji =>
@@ -565,10 +565,11 @@ theorem step_execute (w : World) (idx : Nat) (args : List PV) (kw : Dict PV) :
 
 /-! ### the handler's log -/
 
-/-- the `Sent` records among a list of outputs, in order -/
+/-- the requests that reached the platform (answered or not) among a list of outputs, in order -/
 def sentOf : List Out → List Sent
   | [] => []
   | .sent s :: t => s :: sentOf t
+  | .lost s :: t => s :: sentOf t
   | .err _ :: t => sentOf t
   | .done :: t => sentOf t
   | .payload _ :: t => sentOf t
@@ -581,14 +582,19 @@ theorem step_log (w : World) (op : Op) : (step w op).1.log = w.log ++ sentOf [(s
     rw [h1]
     cases ho : (step w op).2 with
     | sent s => rw [ho] at h2; cases h2
+    | lost s => rw [ho] at h2; cases h2
     | err _ => simp [sentOf]
     | done => simp [sentOf]
     | payload _ => simp [sentOf]
   | true =>
     cases op with
-    | execute idx args kw =>
-      rcases step_execute w idx args kw with ⟨-, h⟩ | ⟨j, its, -, -, h⟩ | ⟨j, its, err, -, -, -, h⟩ |
-          ⟨j, its, pl, -, -, -, h⟩ <;> rw [h] <;> simp [sentOf]
+    | execute idx args kw net =>
+      rcases step_execute w idx args kw net with ⟨-, h⟩ | ⟨j, its, -, -, h⟩ | ⟨j, its, err, -, -, -, h⟩ |
+          ⟨j, its, pl, -, -, -, h⟩ <;> rw [h]
+      · simp [sentOf]
+      · simp [sentOf]
+      · simp [sentOf]
+      · cases net <;> simp [sentOf, received, outcome]
     | _ => cases hx
 
 theorem sentOf_cons (o : Out) (t : List Out) : sentOf (o :: t) = sentOf [o] ++ sentOf t := by
@@ -607,8 +613,8 @@ theorem executed_step (w : World) (op : Op) (idx : Nat) (h : Executed w idx) : E
   | false => exact ⟨j, its, by rw [(step_frame w op hx).2.2.2 idx hlt]; exact hj, hf⟩
   | true =>
     cases op with
-    | execute i args kw =>
-      rcases step_execute w i args kw with ⟨-, h⟩ | ⟨j', its', -, -, h⟩ | ⟨j', its', err, hj', -, -, h⟩ |
+    | execute i args kw net =>
+      rcases step_execute w i args kw net with ⟨-, h⟩ | ⟨j', its', -, -, h⟩ | ⟨j', its', err, hj', -, -, h⟩ |
           ⟨j', its', pl, hj', -, -, h⟩
       · rw [h]; exact ⟨j, its, hj, hf⟩
       · rw [h]; exact ⟨j, its, hj, hf⟩
@@ -1082,8 +1088,8 @@ theorem step_wf (w : World) (op : Op) (hw : w.WFInv) : (step w op).1.WFInv := by
         · exact syncFilterParam_wf e (hw e he)
       split <;> (rename_i e' _ hp; rw [hp] at hwf; intro e2 h2; simp only [Option.some.injEq] at h2; subst h2; exact hwf)
     · exact hw
-  | execute idx args kw =>
-    rcases step_execute w idx args kw with ⟨-, h⟩ | ⟨j, its, -, -, h⟩ | ⟨j, its, err, -, -, -, h⟩ | ⟨j, its, pl, -, -, -, h⟩ <;>
+  | execute idx args kw net =>
+    rcases step_execute w idx args kw net with ⟨-, h⟩ | ⟨j, its, -, -, h⟩ | ⟨j, its, err, -, -, -, h⟩ | ⟨j, its, pl, -, -, -, h⟩ <;>
       (rw [h]; exact hw)
 
 /-! ### the circuit symbol of the remote processor: who changes it -/
@@ -1174,8 +1180,8 @@ theorem step_circ_frame (w : World) (op : Op) (h : op.touchesCircuit = false) : 
         rcases h1 with h1 | h1 <;> rw [h1] <;> rfl
       split <;> (rename_i e' _ hp; rw [hp] at hc; simp only [World.circ, he, Option.map_some]; exact congrArg some hc)
     · rfl
-  | execute idx args kw =>
-    rcases step_execute w idx args kw with ⟨-, h⟩ | ⟨j, its, -, -, h⟩ | ⟨j, its, err, -, -, -, h⟩ | ⟨j, its, pl, -, -, -, h⟩ <;>
+  | execute idx args kw net =>
+    rcases step_execute w idx args kw net with ⟨-, h⟩ | ⟨j, its, -, -, h⟩ | ⟨j, its, err, -, -, -, h⟩ | ⟨j, its, pl, -, -, -, h⟩ <;>
       first | (rw [h]; rfl) | rw [h]
 
 /-- … over every history made of such operations -/
@@ -1185,5 +1191,168 @@ theorem exec_circ_frame (w : World) (ops : List Op) (h : ∀ op ∈ ops, op.touc
   | nil => rfl
   | cons op ops ih =>
     rw [PM.SM.exec_cons, ih _ (fun o ho => h o (List.mem_cons_of_mem _ ho)), step_circ_frame w op (h op (by simp))]
+
+/-! ### iterations: what `_check_iteration` has looked at -/
+
+/-- an accepted iteration: every entry passed its own check (whatever the other keys are) -/
+theorem checkIteration_none (pf : Platform) (e : Exp) (it : Dict IV) (h : checkIteration pf e it = none) :
+    ∀ kv ∈ it, checkIterKey pf e kv.1 kv.2 = none := by
+  induction it with
+  | nil => intro kv hkv; cases hkv
+  | cons hd tl ih =>
+    obtain ⟨k, v⟩ := hd
+    unfold checkIteration at h
+    cases hk : checkIterKey pf e k v with
+    | some err => rw [hk] at h; cases h
+    | none =>
+      rw [hk] at h
+      intro kv hkv
+      rcases List.mem_cons.mp hkv with rfl | hkv
+      · exact hk
+      · exact ih h kv hkv
+
+/-- `add_iteration_list`: whatever is in the iterator afterwards was there before or was accepted by
+`_check_iteration` against this processor — also when a later iteration of the list is refused -/
+theorem addIterations_mem (pf : Platform) (e : Exp) (s : Sampler) (its : List (Dict IV)) :
+    ∀ it ∈ (addIterations pf e s its).1.iterator, it ∈ s.iterator ∨ checkIteration pf e it = none := by
+  induction its generalizing s with
+  | nil => intro it hit; exact Or.inl hit
+  | cons hd tl ih =>
+    intro it hit
+    unfold addIterations at hit
+    cases hc : checkIteration pf e hd with
+    | some err => rw [hc] at hit; exact Or.inl hit
+    | none =>
+      rw [hc] at hit
+      rcases ih _ it hit with h | h
+      · simp only [List.mem_append, List.mem_cons, List.not_mem_nil, or_false] at h
+        rcases h with h | rfl
+        · exact Or.inl h
+        · exact Or.inr hc
+      · exact Or.inr h
+
+theorem addIterations_maxShots (pf : Platform) (e : Exp) (s : Sampler) (its : List (Dict IV)) :
+    (addIterations pf e s its).1.maxShots = s.maxShots := by
+  induction its generalizing s with
+  | nil => rfl
+  | cons hd tl ih =>
+    unfold addIterations
+    cases hc : checkIteration pf e hd with
+    | some err => rfl
+    | none => simp only []; rw [ih]
+
+/-- the iteration was accepted by `_check_iteration` against some state of the session's processor -/
+def IterChecked (pf : Platform) (it : Dict IV) : Prop := ∃ e : Exp, checkIteration pf e it = none
+
+/-- every iteration the session holds anywhere — in the sampler, captured by a job, received by the
+platform — has been accepted by `_check_iteration` -/
+structure World.ItersChecked (w : World) : Prop where
+  sampler : ∀ s, w.sampler = some s → ∀ it ∈ s.iterator, IterChecked w.pf it
+  jobs : ∀ ji ∈ w.jobs, ∀ it ∈ ji.2, IterChecked w.pf it
+  log : ∀ s ∈ w.log, ∀ it ∈ s.iterator, IterChecked w.pf it
+
+theorem itersChecked_of_same (w w' : World) (hpf : w'.pf = w.pf) (hs : w'.sampler = w.sampler)
+    (hj : w'.jobs = w.jobs) (hl : w'.log = w.log) (h : w.ItersChecked) : w'.ItersChecked :=
+  ⟨by rw [hpf, hs]; exact h.sampler, by rw [hpf, hj]; exact h.jobs, by rw [hpf, hl]; exact h.log⟩
+
+theorem onExp_same (w : World) (f : Exp → Res Exp) :
+    (onExp w f).1.pf = w.pf ∧ (onExp w f).1.sampler = w.sampler ∧ (onExp w f).1.jobs = w.jobs ∧
+      (onExp w f).1.log = w.log := by
+  unfold onExp
+  split
+  · simp
+  · split <;> simp
+
+theorem itersChecked_step (w : World) (op : Op) (h : w.ItersChecked) : (step w op).1.ItersChecked := by
+  have onE : ∀ f, (onExp w f).1.ItersChecked := fun f =>
+    itersChecked_of_same w _ (onExp_same w f).1 (onExp_same w f).2.1 (onExp_same w f).2.2.1 (onExp_same w f).2.2.2 h
+  have noSampler : ∀ e : Option Exp, World.ItersChecked { w with exp := e, sampler := none } := fun e =>
+    ⟨fun s hs => (by cases hs), h.jobs, h.log⟩
+  have sameExp : ∀ e : Option Exp, World.ItersChecked { w with exp := e } := fun e =>
+    ⟨h.sampler, h.jobs, h.log⟩
+  cases op with
+  | newRemote via m circ cps noise =>
+    simp only [step]; split
+    · exact h
+    · exact noSampler _
+  | convert fixed p =>
+    simp only [step]; split
+    · exact h
+    · split
+      · exact h
+      · exact noSampler _
+  | addHerald mode ex => exact onE _
+  | withInput s => exact onE _
+  | setFilter n => exact onE _
+  | setPost p => exact onE _
+  | setNoise n => exact onE _
+  | setParam k v => exact onE _
+  | clearParams => exact onE _
+  | setCircuit checked sz circ cps => exact onE _
+  | retune circ => exact onE _
+  | addComponent circ cps => exact onE _
+  | prepare cmd cl il kw =>
+    simp only [step]; split
+    · exact h
+    · split <;> exact sameExp _
+  | newSampler ms =>
+    simp only [step]; split
+    · exact h
+    · split
+      · exact h
+      · exact ⟨fun s hs it hit => (by
+          simp only [Option.some.injEq] at hs; subst hs; cases hit), h.jobs, h.log⟩
+  | addIterations its =>
+    simp only [step]; split
+    · rename_i e s he hs
+      have key : ∀ it ∈ (addIterations w.pf e s its).1.iterator, IterChecked w.pf it := by
+        intro it hit
+        rcases addIterations_mem w.pf e s its it hit with h1 | h1
+        · exact h.sampler s hs it h1
+        · exact ⟨e, h1⟩
+      split <;> (rename_i s' _ hp; rw [hp] at key
+                 exact ⟨fun s2 hs2 it hit => (by
+                   simp only [Option.some.injEq] at hs2; subst hs2; exact key it hit), h.jobs, h.log⟩)
+    · exact h
+  | clearIterations =>
+    simp only [step]; split
+    · exact ⟨fun s2 hs2 it hit => (by simp only [Option.some.injEq] at hs2; subst hs2; cases hit), h.jobs, h.log⟩
+    · exact h
+  | createJob method =>
+    simp only [step]; split
+    · rename_i e s he hs
+      split
+      · exact sameExp _
+      · refine ⟨h.sampler, ?_, h.log⟩
+        intro ji hji it hit
+        simp only [List.mem_append, List.mem_cons, List.not_mem_nil, or_false] at hji
+        rcases hji with hji | rfl
+        · exact h.jobs ji hji it hit
+        · exact h.sampler s hs it hit
+    · exact h
+  | execute idx args kw net =>
+    rcases step_execute w idx args kw net with ⟨-, hst⟩ | ⟨j, its, -, -, hst⟩ | ⟨j, its, err, hj, -, -, hst⟩ |
+        ⟨j, its, pl, hj, -, -, hst⟩ <;> rw [hst]
+    · exact h
+    · exact h
+    · have hmem : (j, its) ∈ w.jobs := List.mem_of_getElem? hj
+      refine ⟨h.sampler, ?_, h.log⟩
+      intro ji hji it hit
+      rcases List.mem_or_eq_of_mem_set hji with hji | rfl
+      · exact h.jobs ji hji it hit
+      · exact h.jobs _ hmem it hit
+    · have hmem : (j, its) ∈ w.jobs := List.mem_of_getElem? hj
+      refine ⟨h.sampler, ?_, ?_⟩
+      · intro ji hji it hit
+        rcases List.mem_or_eq_of_mem_set hji with hji | rfl
+        · exact h.jobs ji hji it hit
+        · exact h.jobs _ hmem it hit
+      · intro s hs it hit
+        simp only [List.mem_append] at hs
+        rcases hs with hs | hs
+        · exact h.log s hs it hit
+        · cases net <;> simp only [received, List.mem_cons, List.not_mem_nil, or_false] at hs
+          · subst hs; exact h.jobs _ hmem it hit
+          · subst hs; exact h.jobs _ hmem it hit
 
 end PM.C16
